@@ -199,3 +199,35 @@ def unit_decimal_range_validate():
                  "assumptions": ["A-DEC: decimal.Decimal(text) is an abstract partial function (dec_parses / dec_of) raising only decimal.InvalidOperation; comparisons of finite decimals are exact; a comparison with a non-finite operand is modelled as raising InvalidOperation"]}
                 for k in ("dec", "int", "str")]
     return ProofUnit("ranges.DecimalRange.validate", "DecimalRange.validate accepts iff the value is a finite number inside some item", ["C01", "C02", "C10"], make, DecimalValidateOracle())
+
+
+def unit_code_for_string_token():
+    BYTES = Abs("Bytes")
+    def setup(ex, st):
+        value = fresh(STR, "value")[0]; st.pc.append(z3.Length(value.z) >= 2)        # precondition (asserted; the callers pass STRING tokens, which have two quotes at least)
+        st.frames[-1].env.update({"name": "limit", "value": value, "location": None}); st.ghost.update({"value": value, "decode_failed": False})
+    def m_encode(ex, st, recv, args, kw):
+        yield st, Sym(BYTES, ex.absfun_s("utf8", [z3.StringSort()], sort_of(BYTES))(lift(recv).z))
+    def m_decode(ex, st, recv, args, kw):
+        ex.obligations.append(Obligation("escapes-are-decoded-as-unicode_escape", st.pc, z3.BoolVal(list(args) == ["unicode_escape"]), "post", props=["C01", "C11"]))
+        sb = st.copy(); sb.ghost["decode_failed"] = True; yield sb, Raise(ex.new_builtin_exc(sb, "UnicodeDecodeError", ["bad escape"]))
+        yield st, Sym(STR, ex.absfun_s("unescaped", [sort_of(BYTES)], z3.StringSort())(recv.z))
+    def quotes_ok(st):
+        v = G(st, "value"); l = z3.SubString(v, 0, 1); r = z3.SubString(v, z3.Length(v) - 1, 1)
+        return z3.And(z3.Or(l == "\"", l == "'"), z3.Or(r == "\"", r == "'"))
+    def inner(st): v = G(st, "value"); return z3.SubString(v, 1, z3.Length(v) - 2)
+    def decoded(ex, st): return ex.absfun_s("unescaped", [sort_of(BYTES)], z3.StringSort())(ex.absfun_s("utf8", [z3.StringSort()], sort_of(BYTES))(inner(st)))
+    def c_result(ex, st):
+        r = lift(st.ghost["__result__"]).z; v = G(st, "value")
+        return Sym(BOOL, z3.And(quotes_ok(st), z3.If(z3.Length(v) == 3, r == z3.StrToCode(inner(st)), z3.And(z3.Length(decoded(ex, st)) == 1, r == z3.StrToCode(decoded(ex, st))))))
+    def c_refused(ex, st):
+        v = G(st, "value")
+        return Sym(BOOL, z3.Or(z3.Not(quotes_ok(st)), z3.And(z3.Length(v) != 3, z3.Or(z3.BoolVal(bool(st.ghost["decode_failed"])), z3.Length(decoded(ex, st)) != 1))))
+    def make(ctx):
+        c = Contract("ranges.code_for_string_token", setup,
+                returns=[Clause(c_result, "a-quoted-single-character-denotes-itself-whatever-it-is-(no-decoding)-a-longer-text-denotes-its-unicode_escape-decoding-if-that-is-one-character", props=["C01", "C11"])],
+                raises={"InterfaceError": [Clause(c_refused, "refused-only-without-quotes-or-when-the-text-between-them-is-not-one-character-even-after-decoding-escapes", props=["C01", "C11", "C09"])]},
+                expect=["return", "InterfaceError"], raises_only_props=["C01", "C11", "C10"])
+        return {"contract": c, "callees": {"strmethod:encode": m_encode, "abs:Bytes.decode": AbsContract(m_decode)},
+                "assumptions": ["A-STR: str.encode('utf-8') / bytes.decode('unicode_escape') are uninterpreted (utf8, unescaped); decode raises only UnicodeDecodeError (G-2 widened the handler; audited by the bounded spelling sweep of C11)"]}
+    return ProofUnit("ranges.code_for_string_token", "code_for_string_token: one quoted character denotes itself; longer texts are decoded as escapes; everything else is refused", ["C01", "C11", "C09", "C10"], make, None)
